@@ -71,7 +71,15 @@ static inline int y_memcmp16(const void* a, const void* b, uint64_t n)
 #if defined(Y_SKELETON_BYTES)
 /* skeleton units: byte-string comparisons are nondeterministic (sound over-approximation of every key content) */
 int nondet_int(void);
+#ifdef Y_MEMCMP_GHOST
+/* endpoint-clause units: the nondeterministic result and the length of every comparison / key-slice copy are recorded in ghosts
+ * (y_memcmp_ghost is defined by the unit's spec) */
+uint64_t g_cpn;
+static inline int y_memcmp_ghost(const void* a, const void* b, uint64_t n);
+#define Y_MEMCMP(a, b, n) y_memcmp_ghost((a), (b), (n))
+#else
 #define Y_MEMCMP(a, b, n) ((void)(a), (void)(b), (void)(n), nondet_int())
+#endif
 #elif defined(Y_MEMCMP_LOOP)
 static inline int y_memcmp_loop(const void* a, const void* b, uint64_t n)
 {
@@ -86,7 +94,11 @@ static inline int y_memcmp_loop(const void* a, const void* b, uint64_t n)
 /* skeleton units (-DY_SKELETON_BYTES): the bytes copied out of key strings are irrelevant to the clause being proved; the
  * destination receives ARBITRARY bytes (sound over-approximation of every key content; only key-slice copies, n <= 8, occur) */
 #ifdef Y_SKELETON_BYTES
-static inline void* y_memcpy_skel(void* d, uint64_t n) { __CPROVER_assert(n <= 8, "skeleton memcpy: key-slice copy"); if (n > 0) __CPROVER_havoc_slice(d, n); return d; }
+static inline void* y_memcpy_skel(void* d, uint64_t n) { __CPROVER_assert(n <= 8, "skeleton memcpy: key-slice copy"); if (n > 0) __CPROVER_havoc_slice(d, n);
+#ifdef Y_MEMCMP_GHOST
+  g_cpn = n;
+#endif
+  return d; }
 #define Y_MEMCPY(d, s, n) y_memcpy_skel((d), (n))
 #else
 #define Y_MEMCPY(d, s, n) memcpy((d), (s), (n))
